@@ -113,6 +113,18 @@ class FnVal:
         return "FnVal(%s)" % self.inst
 
 
+class FnSel:
+    """A function value that depends on conditions (e.g. a function pointer chosen by CPU detection):
+    decision list [(condition bit, FnVal)], first true condition wins, the last entry is the default."""
+    __slots__ = ("alts",)
+
+    def __init__(self, alts):
+        self.alts = list(alts)
+
+    def __repr__(self):
+        return "FnSel(%d)" % len(self.alts)
+
+
 class Place:
     __slots__ = ("cell", "path", "ty", "sl", "cast")
 
@@ -227,6 +239,9 @@ class Frame:
 
 class Interp:
     def __init__(self, facts, models=None, hooks=None, max_steps=2_000_000):
+        import os as _os, time as _time
+        # one rule instance must not run for hours on a tree where a modular boundary vanished
+        self.deadline = _time.time() + (float(_os.environ.get("VERIF_INSTANCE_BUDGET", "0")) or 420.0)
         self.facts = facts
         self.ins = facts.instances
         self.defs = facts.defs
@@ -902,6 +917,12 @@ class Interp:
             if len(a) != len(b):
                 raise Undecided("join of different widths")
             return bv.ite(c, a, b)
+        if isinstance(a, (FnVal, FnSel)) and isinstance(b, (FnVal, FnSel)):
+            if isinstance(a, FnVal) and isinstance(b, FnVal) and a == b:
+                return a
+            la = a.alts if isinstance(a, FnSel) else [(ONE, a)]
+            lb = b.alts if isinstance(b, FnSel) else [(ONE, b)]
+            return FnSel([(bv.band(c, ci), fi) for ci, fi in la] + lb)
         if isinstance(a, Agg) and isinstance(b, Agg) and len(a.f) == len(b.f):
             return Agg(self.join_value(c, x, y) for x, y in zip(a.f, b.f))
         if isinstance(a, Enum) and isinstance(b, Enum) and a.variant == b.variant:
@@ -919,6 +940,10 @@ class Interp:
     def call_instance(self, key, args, callee=None, use_model=True):
         """Evaluate instance `key` on argument values; returns the return value."""
         self.steps += 1
+        if not (self.steps & 63):
+            import time as _time
+            if _time.time() > self.deadline:
+                raise Undecided("time budget of one rule instance exhausted (interpretation did not finish)")
         if use_model:
             for rx, h in self._hook_rx:
                 if rx.search(key):
@@ -991,6 +1016,20 @@ class Interp:
                 elif k == "intrinsic":
                     if st["name"] == "assume":
                         continue
+                    if st["name"] == "copy_nonoverlapping":
+                        src = self.eval_operand(fr, st["src"])
+                        dst = self.eval_operand(fr, st["dst"])
+                        cnt = bv.const_value(self.eval_operand(fr, st["count"]))
+                        if cnt is None:
+                            raise Undecided("copy_nonoverlapping with a symbolic count")
+                        pl = st["src"].get("copy") or st["src"].get("move")
+                        pt = self.ty.get(fr.body["locals"][pl["local"]])["pointee"] if pl is not None and not pl["proj"] else None
+                        if pt is None:
+                            raise Undecided("copy_nonoverlapping: element type")
+                        nbits = cnt * self.ty.size_bits(pt)
+                        if nbits:
+                            self.region_write(dst, self.region_read(src, nbits))
+                        continue
                     raise Undecided("statement intrinsic %s" % st["name"])
             t = blk["term"]
             k = t["k"]
@@ -1019,6 +1058,8 @@ class Interp:
                     if isinstance(f, FnVal):
                         key = f.inst.get("inst") if isinstance(f.inst, dict) else f.inst
                         ret = self.call_instance(key, args, f.inst if isinstance(f.inst, dict) else None)
+                    elif isinstance(f, FnSel):
+                        ret = self.fork_calls(fr, f, args)
                     else:
                         raise Undecided("indirect call of %r" % (f,))
                 if t["target"] is None:
@@ -1092,6 +1133,48 @@ class Interp:
         if not results:
             raise Diverge(("all alternatives diverge", fr.key))
         # join from the last alternative backwards
+        c0, r, st = results[-1]
+        for c, r2, st2 in reversed(results[:-1]):
+            r = self.join_value(c, r2, r)
+            merged = {}
+            for cell in snap:
+                a, b = st2.get(cell, UNDEF), st.get(cell, UNDEF)
+                merged[cell] = a if a is b else self.join_value(c, a, b)
+            st = merged
+        for cell in snap:
+            if cell in st:
+                cell.v = st[cell]
+        return r
+
+    def fork_calls(self, fr, fsel, args):
+        """Call through a condition-dependent function value: every alternative is followed from the same
+        state and the results and states are joined by if-then-else (as for a symbolic switch)."""
+        alts = []
+        earlier = ONE
+        for c, fv in fsel.alts:
+            eff = bv.band(earlier, c)
+            earlier = bv.band(earlier, c ^ ONE)
+            if eff:
+                alts.append((eff, fv))
+        if len(alts) > 6:
+            raise Undecided("call through a function value with %d alternatives" % len(alts))
+        snap = self.snapshot()
+        depth = len(self.frames)
+        results = []
+        for c, fv in alts:
+            self.restore(snap)
+            self.pathcond.append(c)
+            try:
+                key = fv.inst.get("inst") if isinstance(fv.inst, dict) else fv.inst
+                r = self.call_instance(key, args, fv.inst if isinstance(fv.inst, dict) else None)
+                results.append((c, r, self.snapshot()))
+            except Diverge as dv:
+                self.panics.append({"site": dv.site, "cond": c, "path": list(self.pathcond[:-1])})
+            finally:
+                self.pathcond.pop()
+                del self.frames[depth:]
+        if not results:
+            raise Diverge(("all alternatives diverge", fr.key))
         c0, r, st = results[-1]
         for c, r2, st2 in reversed(results[:-1]):
             r = self.join_value(c, r2, r)
@@ -1272,6 +1355,50 @@ class Interp:
         if p.idx + len(values) > len(f):
             raise Diverge(("store exceeds allocation", "memory"))
         f[p.idx:p.idx + len(values)] = values
+        p.cell.v = self.write_path(p.cell.v, p.path, Agg(f))
+
+    def region_read(self, p, nbits):
+        """nbits of memory starting at the element the thin pointer designates (flat, little-endian); the
+        read must stay inside the backing run."""
+        if not isinstance(p, Ptr):
+            raise Undecided("raw read through %r" % (p,))
+        if p.idx is None:
+            t = None
+            v = self.read_path(p.cell.v, p.path)
+            if isinstance(v, tuple):
+                bits = v
+            else:
+                raise Undecided("raw read of a structured value")
+            if nbits > len(bits):
+                raise Diverge(("raw copy reads past the end of the object", "memory"))
+            return bits[:nbits]
+        arr = self.read_path(p.cell.v, p.path)
+        if not isinstance(arr, Agg) or p.ety is None:
+            raise Undecided("raw read over %r" % (arr,))
+        es = self.ty.size_bits(p.ety)
+        need = -(-nbits // es) if es else 0
+        if p.idx + need > len(arr.f) or p.idx < 0:
+            raise Diverge(("raw copy reads %d bytes but only %d remain in the source" % (nbits // 8, (len(arr.f) - p.idx) * es // 8), "memory"))
+        bits = bv.concat(self.to_bits(x, p.ety) for x in arr.f[p.idx:p.idx + need])
+        return bits[:nbits]
+
+    def region_write(self, p, bits):
+        if not isinstance(p, Ptr) or p.idx is None or p.ety is None:
+            raise Undecided("raw write through %r" % (p,))
+        arr = self.read_path(p.cell.v, p.path)
+        if not isinstance(arr, Agg):
+            raise Undecided("raw write over %r" % (arr,))
+        es = self.ty.size_bits(p.ety)
+        nbits = len(bits)
+        need = -(-nbits // es) if es else 0
+        if p.idx + need > len(arr.f) or p.idx < 0:
+            raise Diverge(("raw copy writes %d bytes but only %d remain in the destination" % (nbits // 8, (len(arr.f) - p.idx) * es // 8), "memory"))
+        f = list(arr.f)
+        if nbits % es:
+            tail = self.to_bits(f[p.idx + need - 1], p.ety)
+            bits = tuple(bits) + tail[nbits % es:]
+        for j in range(need):
+            f[p.idx + j] = self.from_bits(tuple(bits[j * es:(j + 1) * es]), p.ety)
         p.cell.v = self.write_path(p.cell.v, p.path, Agg(f))
 
     def subslice(self, p, start, ln):
